@@ -309,3 +309,25 @@ _ADD2 = {
 }
 for _p, _t in _ADD2.items():
     META[_p]['text'] = META[_p]['text'] + _t
+
+_ADD3 = {
+    'C01': ' contains / remove are interpreted for the four cases of the entry state (list empty, event absent, event first, event later), helpers walked in place.',
+    'C02': ' The horizon is what the replication reports: every time accessor of RunControl / Replication is evaluated over the constructor arguments and compared '
+           'with start, start + warm-up period, start + run length. Clock comparisons on Duration clocks are the quantity-comparison rule of C16.',
+    'C03': ' The replication end and the clock comparisons are shared rules (replication time frame; quantity comparisons of C16).',
+    'C04': ' Delivery of every notification to every subscriber (loop over a copy of the list registered under the event type) is a shared rule with C08.',
+    'C06': ' The running-guard of initialize is evaluated for STARTING as well as STARTED; the replication start the clock is reset to is the shared time-frame rule.',
+    'C08': ' remove_all_listeners is interpreted over two event types and one listener (4 forms x 36 cases), loops over copies of the keys unrolled in registration order.',
+    'C09': ' Minimum / maximum by induction over the entry state (empty after initialize / non-empty with a numeric extremum).',
+    'C10': ' Minimum / maximum by induction over the entry state (empty after initialize / non-empty with a numeric extremum); an identity test with NaN decides nothing when false.',
+    'C11': ' Warm-up time and replication end come from the replication time-frame rule; tables of (event type, getter) built by comprehensions are folded to the '
+           'constants they denote, closures with the late binding Python gives them.',
+    'C12': ' Streams handed out by the stream-information classes: no class-level, module-level or default-argument object is kept by or changed through an instance. '
+           'The original seed is written by the constructor only, decided by cases of what a constructed stream holds.',
+    'C13': ' The original seed is constructor-only (shared rule with C12).',
+    'C15': ' State shared between distribution objects (class-level memo, default-argument object) is reported first; a pure per-object memo is removed before the numeric analysis.',
+    'C16': ' A field compared as a whole with == / != (the SI signature) is bound to one kind of container everywhere.',
+    'C18': ' Ordering methods made by a factory in the class body are instantiated before the order rule runs.',
+}
+for _p, _t in _ADD3.items():
+    META[_p]['text'] = META[_p]['text'] + _t
